@@ -42,6 +42,17 @@ TGeneric == \E o \in ev.gen : AtGenericWith(o.x) /\ ob' = o /\ UNCHANGED ev
 TNext == TSetNAC \/ TGamma \/ TComm \/ TGeneric
 TSpec == TInit /\ [][TNext]_tvars
 
+(* non-vacuity of the settings: in at least one configuration the reciprocal basis handed to phonopy is not    *)
+(* reduced (its reduction matrix is not a signed permutation: the basis vectors are not the successive minima  *)
+(* of the reciprocal lattice; recorded by the harness), and that configuration is a sheared setting U # Id3    *)
+PreSomeNonReducedSetting ==
+  pc = pc => \E e \in Events : e.nonReducedReciprocal /\ ~IsSignedPermutation(e.cfg.U)
+
+(* Gonze-Lee: the reciprocal sum runs over ALL reciprocal lattice points inside the cutoff sphere - a set that    *)
+(* does not depend on the basis the cell is given in.  ev.glist = [theirs, mine]: size of the object's G list    *)
+(* and the number of reciprocal lattice points with |G| < G_cutoff counted by the harness                         *)
+ImplGListComplete == pc = "ready" => ev.glist.theirs = ev.glist.mine
+
 NP == Len(ev.at)
 (* runs of the Gonze-Lee object with all Ewald terms (with_full_terms=True) are judged by their own invariants *)
 Main(rs) == {r \in rs : r.route # "fullterms"}
